@@ -65,7 +65,7 @@ Lemma ps_link_J isz st r i d st1 : ps_J st -> ps_is_dir r = false ->
   map ps_key (s_cur st1) = map ps_key (s_cur st) /\
   (forall K', ps_added (ps_keys st) (r, Some i) K' -> ps_G K' (length (s_inodes st1)) (s_e2i st1)).
 Proof.
-  intros J Hd. unfold ps_J in J. unfold ps_link. cbv zeta.
+  intros J Hd. unfold ps_J in J. unfold ps_link, ps_link_gen. cbv zeta.
   destruct (data_len r =? 0) eqn:E0.
   - (* zero length *)
     apply Z.eqb_eq in E0. cbn [negb Z.eqb]. cbv iota.
